@@ -1033,8 +1033,10 @@ func (n *MacroNode) Release() {
 
 // Render renders the macro node
 func (n *MacroNode) Render(w io.Writer, ctx *RenderContext) error {
-	// Register the macro in the context
+	// Register the macro in the context. A macro of this name imported from a
+	// library earlier is replaced, with what is known about its library
 	ctx.macros[n.name] = n
+	delete(ctx.macroLibs, n.name)
 	return nil
 }
 
